@@ -113,13 +113,23 @@ Lemma sub_obj_set_other : forall k obj, String.eqb k "developer_mode" = false ->
   sub_obj k (set "developer_mode" (JBool true) obj) = sub_obj k obj.
 Proof. intros k obj H. unfold sub_obj. rewrite get_set_other by exact H. reflexivity. Qed.
 
+Lemma fieldv_set_other : forall sch obj name, String.eqb name "developer_mode" = false ->
+  fieldv sch (set "developer_mode" (JBool true) obj) name = fieldv sch obj name.
+Proof. intros sch obj name H. unfold fieldv. rewrite get_set_other by exact H. reflexivity. Qed.
+
+Lemma cross_ok_force : forall sch obj, cross_ok sch (set "developer_mode" (JBool true) obj) = cross_ok sch obj.
+Proof.
+  intros sch obj. unfold cross_ok. rewrite !fieldv_set_other by reflexivity. rewrite sub_obj_set_other by reflexivity. reflexivity.
+Qed.
+
 (* BillingModel.to_dict's forced flag never turns an accepted tree into a rejected one *)
 Lemma accepts_force_dev : forall sch st, dev_leaf_ok sch = true -> accepts sch st = true ->
   accepts sch (force_dev st) = true.
 Proof.
   intros sch st Hok H. destruct st; try discriminate H. cbn [force_dev]. unfold accepts in *.
-  apply andb_true_iff in H. destruct H as [H H3]. apply andb_true_iff in H. destruct H as [H1 H2].
-  rewrite !sub_obj_set_other by reflexivity. rewrite H2, H3, !andb_true_r.
+  apply andb_true_iff in H. destruct H as [H H4]. apply andb_true_iff in H. destruct H as [H H3].
+  apply andb_true_iff in H. destruct H as [H1 H2].
+  rewrite !sub_obj_set_other by reflexivity. rewrite cross_ok_force. rewrite H2, H3, H4, !andb_true_r.
   unfold dev_mode at 1. rewrite get_set_same.
   unfold accepts_fields in *. unfold dev_leaf_ok in Hok.
   rewrite forallb_forall in *. intros f Hf.
